@@ -8,6 +8,7 @@ import (
 
 	"github.com/osteele/liquid"
 	"github.com/osteele/liquid/expressions"
+	"github.com/osteele/liquid/render"
 	"verifmc/explore"
 )
 
@@ -82,6 +83,12 @@ var c07Forms = []c07Form{
 	{"{% capture c %}", "{% endcapture %}"},
 }
 
+var c07CustomForms = []c07Form{
+	{"{% passblock %}", "{% endpassblock %}"},
+	{"{% wrapblock %}", "{% endwrapblock %}"},
+	{"{% innerblock %}", "{% endinnerblock %}"},
+}
+
 // Surrounding text. The last one is a decoy: the very same construct, on a line of its own, inside a branch
 // that is not taken (for render-time failures; parse-time kinds get plain text instead) - the error must
 // still name the line of the occurrence that failed.
@@ -100,9 +107,23 @@ func c07Families(tier string) []explore.Family {
 		maxD = 3
 	}
 	var fams []explore.Family
-	F, Ly, K := len(c07Forms), len(c07Layouts), len(c07Kinds)
+	Ly, K := len(c07Layouts), len(c07Kinds)
+	type depthFam struct {
+		name   string
+		d      int
+		table  []c07Form
+		custom bool // keep only nesting paths through at least one custom block; usual path spellings only
+	}
+	var dfs []depthFam
 	for d := 0; d <= maxD; d++ {
-		d := d
+		dfs = append(dfs, depthFam{fmt.Sprintf("depth%d", d), d, c07Forms, false})
+	}
+	// custom blocks that render their body themselves and hand its error on (as it is, through ctx.WrapError, or
+	// after rendering the body into a string): the innermost failing construct is still the one inside the body
+	dfs = append(dfs, depthFam{"inside-custom-blocks-depth1", 1, c07CustomForms, true}, depthFam{"inside-custom-blocks-depth2", 2, append(append([]c07Form{}, c07CustomForms...), c07Forms[0], c07Forms[4]), true})
+	for _, df := range dfs {
+		d, df := df.d, df
+		F := len(df.table)
 		cnt := int64(K * len(c07Locs) * 2 * 2)
 		for j := 0; j < d; j++ {
 			cnt *= int64(F)
@@ -110,7 +131,7 @@ func c07Families(tier string) []explore.Family {
 		for j := 0; j <= d; j++ {
 			cnt *= int64(Ly)
 		}
-		fams = append(fams, explore.Family{Name: fmt.Sprintf("depth%d", d), Count: cnt, Run: func(i int64, r *explore.Rec) {
+		fams = append(fams, explore.Family{Name: df.name, Count: cnt, Run: func(i int64, r *explore.Rec) {
 			rx := radix{i}
 			nlInTags := rx.next(2) == 1
 			viaParseAndRender := rx.next(2) == 1
@@ -121,8 +142,14 @@ func c07Families(tier string) []explore.Family {
 				return // the unusual path spellings are combined with nesting depth 0 and 1 only (cost)
 			}
 			forms := make([]c07Form, d)
+			anyCustom := false
 			for j := range forms {
-				forms[j] = c07Forms[rx.next(F)]
+				k := rx.next(F)
+				forms[j] = df.table[k]
+				anyCustom = anyCustom || k < len(c07CustomForms)
+			}
+			if df.custom && (!anyCustom || li >= 6 || (d >= 2 && li >= 3)) {
+				return
 			}
 			lays := make([]string, d+1)
 			for j := range lays {
@@ -387,6 +414,27 @@ func init() {
 				}
 				e.RegisterFilter("nested_render_error", nested("x\ny\n{{ 1 | nosuchfilter }}"))
 				e.RegisterFilter("nested_parse_error", nested("\n{{ 1 | }}"))
+				e.RegisterBlock("passblock", func(ctx render.Context) (string, error) {
+					s, err := ctx.InnerString()
+					if err != nil {
+						return "", err
+					}
+					return s, nil
+				})
+				e.RegisterBlock("wrapblock", func(ctx render.Context) (string, error) {
+					s, err := ctx.InnerString()
+					if err != nil {
+						return "", ctx.WrapError(err)
+					}
+					return s, nil
+				})
+				e.RegisterBlock("innerblock", func(ctx render.Context) (string, error) {
+					var sb strings.Builder
+					if err := ctx.RenderChildren(&sb); err != nil {
+						return "", err
+					}
+					return sb.String(), nil
+				})
 				return e
 			}
 			c07.eng, c07.strict = mk(), mk()
